@@ -2,7 +2,7 @@
 import json
 import random
 
-from harness import b1, gen, termgen
+from harness import b1, gen, k2, randomop, termgen, tlc
 
 LEVEL = 'model_checking'
 
@@ -21,6 +21,82 @@ def corrupt(o):
                 v[1] = not v[1]
                 return o
     return None
+
+
+def random_check(chk, rnd, n):
+    """random(seed, index) as an uninterpreted function (VTLRandom): self-check of the machine by TLC, then the points
+    revealed by generated scripts (several statements, two runs) validated by VTLRandom_Trace."""
+    r = tlc.run('MCRandom', 'MCRandom.cfg', workers=4)
+    if r.violated:
+        chk.violation('model invariant %s (MCRandom)' % r.violated, 'TLC: %s violated in MCRandom' % r.violated, r.output[-3000:])
+    tlc.must(r, 'MCRandom')
+    chk.add('states', r.states)
+    chk.add('transitions', r.generated)
+    units = randomop.make_units(rnd, n)
+    obs = k2.pmap('harness.randomop:observe', units)
+    traces = []
+    for u, o in zip(units, obs):
+        chk.add('evaluations')
+        if 'err' in o:
+            chk.violation('random %s | %s' % (o['err'], '+'.join(u['forms'])), 'a script using random raised %s %s' % (o['err'], o.get('msg')), {'script': o.get('text'), 'observed': o})
+            continue
+        traces.append({'id': u['id'], 'pts': o['pts'], 'text': o['text']})
+    verd, st, tr = randomop.validate(traces)
+    chk.add('states', st)
+    chk.add('transitions', tr)
+    seen = set()
+    for t in traces:
+        # a unit may break several clauses / ways of writing the seed: after a rejection the offending point is dropped
+        # and the rest of the trace is validated again, so that every distinct failure of the unit is reported once
+        pts = list(t['pts'])
+        for _ in range(12):
+            v = verd[t['id']] if pts is t['pts'] or len(pts) == len(t['pts']) else randomop.validate([{'id': t['id'], 'pts': pts}])[0][t['id']]
+            if v['ok']:
+                break
+            p = pts[v['at'] - 1]
+            if v['clause'] == 'Function':
+                q = pts[v['first'] - 1]
+                key = 'random Function | %s seed as %s vs %s%s' % (p['t'], p['src'], q['src'], '' if p['run'] == q['run'] else ' | across runs')
+                why = ('random(%s, %s) is not a function: %s (%s, statement %s, run %d) but %s (%s, statement %s, run %d)' % (
+                    gen_show(p['seed']), p['idx'][1], show(p['v']), p['src'], p['st'], p['run'], show(q['v']), q['src'], q['st'], q['run']))
+            else:
+                key = 'random %s | %s seed as %s' % (v['clause'], p['t'], p['src'])
+                why = 'random(%s, %s) = %s (%s, statement %s): clause %s of VTLRandom' % (gen_show(p['seed']), p['idx'][1], show(p['v']), p['src'], p['st'], v['clause'])
+            if key not in seen:
+                seen.add(key)
+                chk.violation(key, why, {'script': t['text'], 'point': p, 'verdict': v})
+            pts = [x for x in pts if not (x['src'] == p['src'] and x['t'] == p['t'] and (v['clause'] != 'NullPropagates' or x['seed'][0] == 0))]
+        else:
+            raise RuntimeError('random: more than 12 distinct rejections in one unit')
+        if verd[t['id']]['ok']:
+            chk.add('traces_validated_against_impl')
+            chk.add('random_points', len(t['pts']))
+    if traces:
+        chk.sample({'random': traces[0]['text'], 'points': len(traces[0]['pts']), 'verdict': verd[traces[0]['id']]})
+    # binding demonstration: one value of an accepted trace changed must be rejected by Function
+    good = [t for t in traces if verd[t['id']]['ok'] and len({(p['t'], json.dumps(p['seed']), p['idx'][1]) for p in t['pts']}) < len(t['pts'])]
+    if good:
+        t = json.loads(json.dumps(good[0]))
+        keys = {}
+        for i, p in enumerate(t['pts']):
+            k = (p['t'], json.dumps(p['seed']), p['idx'][1])
+            if k in keys and p['v'][0] == 1:
+                p['v'] = [1, (p['v'][1] + 1) % 10**9]
+                break
+            keys[k] = i
+        v = randomop.validate([t])[0][t['id']]
+        if v['ok']:
+            raise RuntimeError('binding demonstration failed (VTLRandom accepts a corrupted trace)')
+        chk.notes['random_binding_demo'] = 'one repeated point changed by 1e-9: rejected by clause %s' % v['clause']
+
+
+def show(v):
+    return 'null' if v[0] == 0 else '%.6f' % (v[1] / 1e9)
+
+
+def gen_show(v):
+    from harness import values
+    return 'null' if v[0] == 0 else str(values.dec(v))
 
 
 def main(chk):
@@ -49,6 +125,7 @@ def main(chk):
     b1.validate(chk, uu, lambda u: 'as user-defined operator | ' + keyfn(dict(u, term=u['term']['body'])), pack=1)
     # in / not_in against value domains of the environment (growth: run(value_domains=...))
     b1.validate(chk, termgen.random_vd_units(rnd, 60 if quick else 1500), lambda u: 'value domain | ' + keyfn(u), pack=1)
+    random_check(chk, rnd, 25 if quick else 400)
     b1.binding_demo(chk, lu, lo, corrupt)
     chk.cov['rule'] = ('B1: every transition of the TLC model GenOps (combination tables meeting every pair of pool values incl. null, '
                        'zero, negative, fractional; every operator at dataset, dataset-scalar, scalar-dataset and component level; every '
